@@ -1,6 +1,6 @@
 (* C07 property theorems. This file contains only statements closed by
    [exact lemma] and Print Assumptions. *)
-From V Require Import Common.Base Common.Utf8 C07.LineCol C07.Builder C07.BuilderProofs C07.LineColAux C07.LineColProofs C07.Shift C07.ShiftAux C07.ShiftProofs C07.Vlq C07.SpecMap C07.Mappings C07.VlqProofs C07.MappingsProofs C07.FindProofs C07.JoinProofs C07.SpecBuilder C07.BuilderExact C07.JoinAll C07.JoinAllProofs C07.Pipeline.
+From V Require Import Common.Base Common.Utf8 C07.LineCol C07.Builder C07.BuilderProofs C07.LineColAux C07.LineColProofs C07.Shift C07.ShiftAux C07.ShiftProofs C07.Vlq C07.SpecMap C07.Mappings C07.VlqProofs C07.MappingsProofs C07.FindProofs C07.JoinProofs C07.SpecBuilder C07.BuilderExact C07.JoinAll C07.JoinAllProofs C07.Pipeline C07.BuilderIn C07.BuilderInProofs.
 
 (* encodeVLQ/DecodeVLQ round trip, every integer, arbitrary trailing bytes *)
 Theorem vlq_roundtrip : forall v rest, DecodeVLQ (encodeVLQ v ++ rest) = Some (v, rest).
@@ -174,3 +174,32 @@ Theorem pipeline_exact : forall (sfs : list src_file) sh,
       Some (map (shift_abs sh) (joined_abs (assign_sources rs [] 0) (map spec_file sfs) (0, 0) 0)).
 Proof. exact pipeline_exact_all. Qed.
 Print Assumptions pipeline_exact.
+
+(* Composition through an input source map. The ChunkBuilder created with a
+   non-nil inputSourceMap (BuilderIn.v; AddSourceMappingG None is the builder of
+   builder_mappings_exact) whose mappings [ms] are sorted by generated position
+   and whose name indices lie inside its Names array: for every original text,
+   calls at character boundaries and output text, the builder does not panic
+   and the chunk is byte for byte the encoding of the event list of
+   builder_in_spec (BuilderInProofs.v), which is the list of
+   builder_mappings_exact without cover mappings in which every original
+   position  linecol_utf16 text loc  is replaced by the target (source index,
+   line, column) of  spec_find ms line col  -- the last input mapping at or
+   before that position on that line, find_is_last_le -- and the mapping is
+   dropped when there is none; the name is the input mapping's name when it has
+   one, otherwise the caller's. *)
+Theorem builder_composes : forall text ms inames,
+  sorted_maps ms -> names_in_range ms inames ->
+  forall evs fin,
+  Forall (fun e => boundary text (fst (fst e))) evs ->
+  exists b, run_builder_g (Some (ms, inames)) (GenerateLineOffsetTables text) (bst0_g (Some (ms, inames))) evs = Some b /\
+    let '(data, fno, names, endst, fcol, _) := GenerateChunk b fin in
+    let '(ops, snames, scol) := builder_in_spec text ms inames evs fin in
+    data = emit_bytes ops /\
+    spec_decode data = Some (abs_of ops 0) /\
+    fno = option_map Z.of_nat (first_name_off ops 0 state0 0) /\
+    names = snames /\ fcol = scol /\
+    endst = snd (emit ops 0 state0) /\
+    sorted_ops ops 0 /\ end_col ops 0 <= fcol.
+Proof. exact builder_composes_all. Qed.
+Print Assumptions builder_composes.
